@@ -33,6 +33,8 @@ Ok(e) ==
       \* two boxes of positive extent collide iff their interiors share a point
       [] e.op = "collides" -> e.obs = B2I(\E p \in G(d) : InInterior(e.a, p) /\ InInterior(e.b, p))
       [] e.op = "expanded" -> e.obs = Hull(Pts(e.a, G(d)) \cup {e.p}, d)
+      \* inside-out receiver: the result contains the point; returning and in-place forms agree
+      [] e.op = "expanded_any" -> InBox(e.obs[1], e.p) /\ e.obs[2] = e.obs[1]
       \* split at coordinate s on one axis: the halves cover the box and share exactly the slice at s
       [] e.op = "split" -> /\ Pts(e.obs[1], G(d)) \cup Pts(e.obs[2], G(d)) = Pts(e.a, G(d))
                            /\ Pts(e.obs[1], G(d)) \cap Pts(e.obs[2], G(d)) = {p \in Pts(e.a, G(d)) : p[e.axis] = e.s}
@@ -47,11 +49,21 @@ Ok(e) ==
       [] e.op = "rect_to_box" -> e.obs = BoxOfRect(e.pos, e.ext)
       \* the 2D box of a 3D box: the first two coordinates of both corners
       [] e.op = "box_drop_z" -> e.obs = [min |-> <<e.a.min[1], e.a.min[2]>>, max |-> <<e.a.max[1], e.a.max[2]>>]
+      \* a rectangle method and the box method on the converted rectangle (both observed): equal, and exact when the
+      \* corner sum is even (Rust's integer division truncates otherwise)
+      [] e.op = "rect_vs_box" -> /\ e.obs[1] = e.obs[2]
+                                 /\ \A a \in 1 .. Len(e.pos) : (2 * e.pos[a] + e.ext[a]) % 2 = 0 => 2 * e.obs[2][a] = 2 * e.pos[a] + e.ext[a]
       [] e.op = "box_to_rect" -> e.obs.pos = e.a.min /\ e.obs.ext = VSub(e.a.max, e.a.min)
       [] e.op = "new_empty" -> e.obs = [min |-> e.p, max |-> e.p]
       \* disks / spheres on integers
-      [] e.op = "disk_contains" -> e.obs = B2I(Dist2(e.c, e.p) <= e.r * e.r)
-      [] e.op = "disk_collides" -> e.obs = B2I(Dist2(e.c, e.c2) <= (e.r + e.r2) * (e.r + e.r2))
+      \* distance <= radius (resp. sum of radii): squared only when that bound is non-negative - a negative bound is
+      \* never reached by a distance
+      [] e.op = "disk_contains" -> e.obs = B2I(e.r >= 0 /\ Dist2(e.c, e.p) <= e.r * e.r)
+      [] e.op = "disk_collides" -> e.obs = B2I(e.r + e.r2 >= 0 /\ Dist2(e.c, e.c2) <= (e.r + e.r2) * (e.r + e.r2))
+      \* floats (scaled by 2^16, -1 = not finite): the distance function is the distance to the projected point; for a
+      \* query point on the segment both are (nearly) zero
+      [] e.op = "seg_distance_f" -> /\ e.obs[1] >= 0 /\ e.obs[2] >= 0 /\ Abs(e.obs[1] - e.obs[2]) <= 8
+                                    /\ (e.on = 1 => e.obs[1] <= 8)
       [] e.op = "disk_box" -> e.obs = [min |-> [a \in 1 .. Len(e.c) |-> e.c[a] - e.r], max |-> [a \in 1 .. Len(e.c) |-> e.c[a] + e.r]]
       [] e.op = "disk_diameter" -> e.obs = 2 * e.r
       \* circumference, area, surface, volume on floats, scaled by 1000: pi = 3.14159265...
